@@ -24,6 +24,9 @@ func main() {
 		case "child-leaf":
 			childLeaf(os.Args[2:])
 			return
+		case "child-requester":
+			childRequester(os.Args[2:])
+			return
 		case "item":
 			// c19 item <index> [race] [repeat]: run all schedules of one tree item in this process and print the verdicts
 			debugItem(os.Args[2:])
@@ -37,7 +40,9 @@ func main() {
 		"seeded random orders for large ones; in free mode seeded micro delays on bounded pools; one tree in eight is also run with the pooled stages' " +
 		"context cancelled in mid-flight, one in 25 is a wide tree of 10-23 pooled children). Non-trivial = at least two stages were registered " +
 		"with the pipeline; distinct = (canonical tree, observed completion order incl. callback position). " +
-		"leaf workload: a case = (query shape, per-shard fault {none, too many series (real operator error), injected error/panic at Filter, Load, GetDataFamilies}, " +
+		"requesting side: a case = (root | intermediate, 2-5 targets, response of every target {ok (a real leaf payload), real error, not found}, " +
+		"order and arrival point of the responses - while a later request is being sent or while the caller waits -, duplicates, late copies, send failures); " +
+		"the first 324 cases enumerate 3 targets x every assignment x every order x {during the last send, after the sends}. leaf workload: a case = (query shape, per-shard fault {none, too many series (real operator error), injected error/panic at Filter, Load, GetDataFamilies}, " +
 		"order in which the shards' stages are released); distinct = (query shape, fault assignment, release order)")
 	c.Assume("the harness stage wrapper only records calls and delegates to stage.VerifStage (which embeds the real baseStage); " +
 		"operators, Plan(), NextStages() and Complete() are harness code, everything between them (pipeline, state machine, baseStage.Execute/execute, concurrent.Pool) is lindb's")
@@ -112,6 +117,26 @@ func main() {
 			args: []string{"child-leaf", res, filepath.Join(scratch, "leaf-risky.cases"), filepath.Join(scratch, "leaf-risky"), "1", "0", "0", "risky"},
 			env:  []string{"LOG_LEVEL=fatal"},
 			res:  res, out: filepath.Join(scratch, "leaf-risky.out"),
+		})
+	}
+	// requesting side (root / intermediate) over the real task manager
+	reqJobs := c.Pick(1, 4)
+	for j := 0; j < reqJobs; j++ {
+		res := filepath.Join(scratch, fmt.Sprintf("requester-%d.json", j))
+		jobs = append(jobs, job{
+			name: fmt.Sprintf("requester-%d", j),
+			args: []string{"child-requester", res, filepath.Join(scratch, fmt.Sprintf("requester-%d.cases", j)), filepath.Join(scratch, fmt.Sprintf("requester-%d", j)), fmt.Sprint(reqJobs), fmt.Sprint(j), "0"},
+			env:  []string{"LOG_LEVEL=fatal"},
+			res:  res, out: filepath.Join(scratch, fmt.Sprintf("requester-%d.out", j)),
+		})
+	}
+	if raceBin != "" {
+		res := filepath.Join(scratch, "race-requester.json")
+		jobs = append(jobs, job{
+			name: "race-requester", bin: raceBin, race: true,
+			args: []string{"child-requester", res, filepath.Join(scratch, "race-requester.cases"), filepath.Join(scratch, "race-requester"), "1", "0", "1"},
+			env:  []string{"LOG_LEVEL=fatal", "GORACE=halt_on_error=0 log_path=" + filepath.Join(raceDir, "racereq")},
+			res:  res, out: filepath.Join(scratch, "race-requester.out"),
 		})
 	}
 	if raceBin != "" {
@@ -214,7 +239,9 @@ func main() {
 	// the run must have observed what the oracle relies on
 	need := []string{"runs_serial", "runs_free", "callback", "failure_not_last_to_finish", "failure_last_to_finish",
 		"callback_after_panic", "callback_after_all_finished", "decision_points_with_alternatives",
-		"leaf_requests", "leaf_requests_with_failing_shard", "leaf_responses"}
+		"leaf_requests", "leaf_requests_with_failing_shard", "leaf_responses",
+		"requester_cases_root", "requester_cases_intermediate", "requester_cases_with_failing_target", "requester_not_found_handled_after_error",
+		"requester_success_answers"}
 	for _, k := range need {
 		if c.Counter(k) == 0 {
 			c.Inconclusive("nothing observed for %q", k)
